@@ -7,15 +7,18 @@ CONSTANTS
   MaxBg = 0
   MaxLosses = 0
   MaxLogins = 1
+  SlowScan = {FALSE}
   Env = {}
   MaxConnFail = 0
   FixAutoJoin = TRUE
   FixDistStopped = TRUE
   FixWatchdogStopped = TRUE
+  FixCancelFirst = TRUE
   FixTimersStopped = TRUE
   FixStaleInit = TRUE
   FixSelfAwait = TRUE
   FixQueueOnce = TRUE
+  FixScanStopped = TRUE
 INVARIANT TypeOK
 INVARIANT AdvertisedOnly
 INVARIANT AdvertisedExactly
